@@ -7,6 +7,7 @@
 (*  "scan"  a large-radius pair with the second atom scanned over a grid of  *)
 (*          a sheared / tilted / orthorhombic cell (finds wrong minimum-     *)
 (*          image rules);                                                   *)
+(*  "chain" 18 / 24 / 27 atoms on a grid of bonded rows;                     *)
 (*  "multi" every 2..4-subset of seven sites near faces and corners, then   *)
 (*          shifted and wrapped (C17's second sentence).                    *)
 (* TLC checks on every crystal that the 27-image design equals the          *)
@@ -54,11 +55,18 @@ MultisOf(q) ==     \* q = <<cell, S>>
   {Mk(q[1], [n \in 1..Cardinality(q[2]) |-> LET a == Sites[SeqOf(q[2])[n]] IN At(a.el, W(q[1], VAdd3(a.pos, v)))], "multi") :
       v \in {<<0, 0, 0>>, <<130, -260, 415>>}}
 
-Chunks == {[kind |-> "chunk", what |-> "pair", q |-> q] : q \in {"ortho", "tri"} \X {"inside", "face", "edge", "corner"} \X PairElems \X PairElems}
+\* n atoms on a 3 x 3 x k grid: neighbours along x are 1.5 A apart (bonded), rows and layers 2.4 / 2.5 A apart (not
+\* bonded); more atoms than any block size a vectorised implementation is likely to use
+ChainsOf(q) ==     \* q = <<cell, {n}>>  (the same shape as the descriptors of "multi": TLC compares descriptors)
+  {Mk(q[1], [i \in 1..(CHOOSE n \in q[2] : TRUE) |->
+               At(IF i % 5 = 0 THEN "N" ELSE "C", W(q[1], <<20 + 150 * ((i - 1) % 3), 30 + 240 * (((i - 1) \div 3) % 3), 40 + 250 * ((i - 1) \div 9)>>))], "chain")}
+
+Chunks == {[kind |-> "chunk", what |-> "chain", q |-> q] : q \in {"ortho", "tri"} \X {{18}, {24}, {27}}} \cup
+          {[kind |-> "chunk", what |-> "pair", q |-> q] : q \in {"ortho", "tri"} \X {"inside", "face", "edge", "corner"} \X PairElems \X PairElems}
           \cup {[kind |-> "chunk", what |-> "scan", q |-> q] :
                    q \in {"shearp", "shearm", "tri", "ortho"} \X {<<"Zr", "Zr">>, <<"Cs", "I">>, <<"C", "C">>, <<"Cu", "O">>} \X (0..(600 \div ScanStep))}
           \cup {[kind |-> "chunk", what |-> "multi", q |-> q] : q \in {"ortho", "tri", "none"} \X UNION {SubsetsOf(7, k) : k \in 2..4}}
-CrystalsOf(c) == IF c.what = "pair" THEN PairsOf(c.q) ELSE IF c.what = "scan" THEN ScansOf(c.q) ELSE MultisOf(c.q)
+CrystalsOf(c) == IF c.what = "chain" THEN ChainsOf(c.q) ELSE IF c.what = "pair" THEN PairsOf(c.q) ELSE IF c.what = "scan" THEN ScansOf(c.q) ELSE MultisOf(c.q)
 Valid(y) == ~Ambiguous(y) /\ InsideB(y) /\ WidthsOKB(y) /\ \A i, j \in 1..Len(y.atoms) : i # j => y.atoms[i].pos # y.atoms[j].pos
 
 Init == x \in Chunks
